@@ -988,7 +988,9 @@ fn check_config_door(scene: &Scene, flags: u32, discard: Discard, kind: TargetKi
                 for Tri(vs) in &o {
                     let s: Vec<[f64; 2]> = vs.iter().map(|v| { let [x, y, _, w] = v.pos.0.map(|c| c as f64); [x / w * vx, y / w * vy] }).collect();
                     let a = (s[1][0] - s[0][0]) * (s[2][1] - s[0][1]) - (s[1][1] - s[0][1]) * (s[2][0] - s[0][0]);
-                    if a.abs() < 1e-6 { decidable = false; }
+                    // (a piece thinner than the f32 rounding of its own screen positions has no winding to speak of: positions are
+                    // rounded to ~1e-6 px, over edges up to the frame's size that is ~1e-5 px^2 of area)
+                    if a.abs() < 1e-3 { decidable = false; }
                 }
                 o.len()
             } else { 1 };
@@ -1042,6 +1044,9 @@ fn check_depth_predicate(scene: &Scene, kind: TargetKind, door: Door, shift: usi
     let fd = base.depth.as_ref().unwrap();
     let covered: Vec<bool> = (0..px).map(|p| base.color[p] != color_sentinel(p)).collect();
     if !covered.iter().any(|c| *c) { r.h("depth-pred:nothing-drawn"); return; }
+    // the model below is one fragment per covered pixel; where the pieces of a clipped triangle meet, a pixel may receive a
+    // fragment from two of them (each within C04's band of the shared edge) - such scenes are left to the other checks
+    if base.stats.frags.i != covered.iter().filter(|c| **c).count() { r.h("depth-pred:pixels-with-several-fragments(not judged)"); return; }
     let delta = |p: usize| [-2i32, -1, 0, 1, 2][(p + shift) % 5];
     let pc: Vec<u32> = (0..px).map(color_sentinel).collect();
     let pd: Vec<f32> = (0..px).map(|p| if covered[p] && fd[p].is_finite() && fd[p] > 0.0 { f32::from_bits((fd[p].to_bits() as i32 + delta(p)) as u32) } else { depth_sentinel(p) }).collect();
